@@ -9,6 +9,7 @@
 //!   18003 ROUNDTRIP  ps = [dbg rk tcode has_prex model has_prer | shx(10) | shr(10)]
 //!                    vs = [13::Fx ; 13::SX ; 13::Fr ; 13::S0]
 //!                    out = [[woc_x oc woc_after acc] ; 13::written ; 13::dump_after ; 15::raw_after]
+//!   18005 CONSTRUCT  ps = [dbg tcode | sh(10)]   out = [[woc]]   (alloc + fill + write_to of a grid shape; 3 = the dump does not have the documented layout)
 //!   18004 DIST       ps = [tag payload model]      out = [[woc oc tag' payload'] ; 13::bytes]
 //! sh = [n base2k k rank_in rank_out dnum dsize nkeys aux fillseed]   (meaning per type: see `make`)
 //! F = write_to of the freshly allocated object (fixes the capacities); S0 = optional first stream read into it.
@@ -25,7 +26,7 @@ use poulpy_core::layouts::{
     GLWEAutomorphismKeyLayout, GLWECompressed, GLWECompressedSeed, GLWEPublicKey, GLWESwitchingKey, GLWESwitchingKeyCompressed,
     GLWESwitchingKeyLayout, GLWETensorKey, GLWETensorKeyCompressed, GLWEToLWEKey, GLWEToLWEKeyLayout,
     GLWEToLWESwitchingKeyCompressed, LWE, LWECompressed, LWEInfos, LWESwitchingKey, LWESwitchingKeyCompressed,
-    LWEToGLWEKey, LWEToGLWEKeyCompressed, Rank, TorusPrecision,
+    LWEToGLWEKey, LWEToGLWEKeyCompressed, Rank, SetGaloisElement, TorusPrecision,
 };
 use poulpy_hal::layouts::{DataView, FillUniform, MatZnx, ReaderFrom, ScalarZnx, VecZnx, WriterTo, ZnxInfos};
 use poulpy_hal::source::Source;
@@ -219,6 +220,9 @@ dyn_obj!(BlindRotationKeyCompressed<Vec<u8>, CGGI>);
 dyn_obj!(CircuitBootstrappingKey<Vec<u8>, CGGI>);
 dyn_obj!(BDDKey<Vec<u8>, CGGI>);
 
+/// Galois elements used for automorphism keys: odd, mostly NEGATIVE (trace keys use -1; -5^k mod 2N are the conjugated rotations)
+const GALOIS: &[i64] = &[-1, -5, -7, -25, 5, 25, -3, 3];
+
 const ALL_TYPES: &[i128] = &[1, 2, 3, 10, 11, 12, 13, 14, 15, 16, 17, 18, 19, 20, 21, 22, 23, 24, 25, 26, 27, 28, 29, 30, 40, 41, 42, 43, 50, 51];
 
 /// sh = [n base2k k rank_in rank_out dnum dsize nkeys aux fillseed]
@@ -263,13 +267,23 @@ fn make(tcode: i128, sh: &[i128]) -> Box<dyn DynObj> {
         16 => filled!(GGLWECompressed::alloc(n, b, k, ri, ro, dn, ds)),
         17 => filled!(GGSWCompressed::alloc(n, b, k, ri, dn, ds)),
         18 => filled!(GLWESwitchingKey::alloc(n, b, k, ri, ro, dn, ds)),
-        19 => filled!(GLWEAutomorphismKey::alloc(n, b, k, ri, dn, ds)),
+        19 => {
+            let mut o = GLWEAutomorphismKey::alloc(n, b, k, ri, dn, ds);
+            o.fill_uniform(50, &mut src);
+            if sh[8] > 0 { o.set_p(GALOIS[(sh[8] as usize - 1) % GALOIS.len()]); }
+            Box::new(o)
+        }
         20 => filled!(GLWETensorKey::alloc(n, b, k, ri, dn, ds)),
         21 => filled!(LWEToGLWEKey::alloc(n, b, k, ro, dn)),
         22 => filled!(LWESwitchingKey::alloc(n, b, k, dn)),
         23 => filled!(GLWEToLWEKey::alloc(n, b, k, ri, dn)),
         24 => filled!(GLWESwitchingKeyCompressed::alloc(n, b, k, ri, ro, dn, ds)),
-        25 => filled!(GLWEAutomorphismKeyCompressed::alloc(n, b, k, ri, dn, ds)),
+        25 => {
+            let mut o = GLWEAutomorphismKeyCompressed::alloc(n, b, k, ri, dn, ds);
+            o.fill_uniform(50, &mut src);
+            if sh[8] > 0 { o.set_p(GALOIS[(sh[8] as usize - 1) % GALOIS.len()]); }
+            Box::new(o)
+        }
         26 => filled!(GLWETensorKeyCompressed::alloc(n, b, k, ri, dn, ds)),
         27 => filled!(LWEToGLWEKeyCompressed::alloc(n, b, k, ro, dn)),
         28 => filled!(LWESwitchingKeyCompressed::alloc(n, b, k, dn)),
@@ -481,6 +495,13 @@ fn exec_inner(r: &Rec) -> Out {
                 Err(pn) => Err(panic_class(pn)),
             }
         }
+        18005 => {
+            // allocate, fill, write: a base shape of the grid must always be constructible and serialisable
+            let o = make(p[1], &p[2..12]);
+            let (woc, f) = dump(&*o);
+            let walked = catch_unwind(AssertUnwindSafe(|| walk(p[1], &f))).is_ok();
+            Ok(vec![vec![if woc == 0 && !walked { 3 } else { woc }]])
+        }
         _ => Err(format!("c18: unknown op {}", r.code)),
     }
 }
@@ -519,9 +540,6 @@ fn schema(tcode: i128) -> Sch {
         42 => Sch::K(&[FK::Dist], &S_GGLWE), 43 => Sch::K(&[FK::Dist], &S_GGLWE_C),
         50 => Sch::C, _ => Sch::B,
     }
-}
-fn leaf_kind(tcode: i128) -> u8 {
-    match schema(tcode) { Sch::F(k) => k, Sch::W(w) => w.leaf, Sch::K(_, w) => w.leaf, _ => 3 }
 }
 
 /// kind: 1 wrapper u32, 2 wrapper u64, 3 seed, 4 seed count, 5 dist word, 6 leaf factor field, 7 leaf max_size,
@@ -594,7 +612,7 @@ fn walk(tcode: i128, b: &[u8]) -> Vec<Slot> {
 // ------------------------------------------------------------------------------------------------
 // generation
 
-struct Gen { rng: Rng, out: Vec<Rec>, dbg: i128, model: i128 }
+struct Gen { rng: Rng, out: Vec<Rec>, dbg: i128, model: i128, gal: usize }
 
 fn base_shape(tcode: i128, variant: usize) -> Vec<i128> {
     // [n base2k k rank_in rank_out dnum dsize nkeys aux fillseed]
@@ -607,7 +625,8 @@ fn base_shape(tcode: i128, variant: usize) -> Vec<i128> {
         12 => vec![4, 8, 24, 2, 0, 0, 0, 0, 0, 1],
         13 => vec![1, 8, 24, 0, 0, 0, 0, 0, 0, 1],
         14 | 16 | 18 | 24 => [vec![2, 8, 24, 2, 1, 2, 1, 0, 0, 1], vec![4, 8, 24, 1, 2, 1, 2, 0, 0, 1]][variant % 2].clone(),
-        15 | 17 | 19 | 20 | 25 | 26 => [vec![2, 8, 24, 1, 1, 2, 1, 0, 0, 1], vec![2, 8, 24, 2, 2, 1, 2, 0, 0, 1]][variant % 2].clone(),
+        19 | 25 => { let mut v = [vec![2, 8, 24, 1, 1, 2, 1, 0, 0, 1], vec![2, 8, 24, 2, 2, 1, 2, 0, 0, 1]][variant % 2].clone(); v[8] = 1 + variant as i128; v }
+        15 | 17 | 20 | 26 => [vec![2, 8, 24, 1, 1, 2, 1, 0, 0, 1], vec![2, 8, 24, 2, 2, 1, 2, 0, 0, 1]][variant % 2].clone(),
         21 | 27 => vec![2, 8, 24, 1, 2, 2, 1, 0, 0, 1],
         22 | 28 => vec![2, 8, 24, 1, 1, 2, 1, 0, 0, 1],
         23 | 29 => vec![2, 8, 24, 2, 1, 2, 1, 0, 0, 1],
@@ -617,6 +636,10 @@ fn base_shape(tcode: i128, variant: usize) -> Vec<i128> {
         50 => vec![4, 8, 16, 1, 1, 1, 1, 2, 0, 1],
         _ => vec![4, 8, 16, 1, 1, 1, 1, 2, (variant % 2) as i128, 1],
     }
+}
+
+fn nvariants(tcode: i128) -> usize {
+    match tcode { 1 => 3, 19 | 25 => 4, 2 | 3 | 10 | 14..=18 | 20 | 24 | 26 | 51 => 2, _ => 1 }
 }
 
 /// same type, more capacity / less capacity / same capacity with other dimensions
@@ -643,17 +666,27 @@ fn resized(tcode: i128, sh: &[i128], how: i32) -> Vec<i128> {
 }
 
 impl Gen {
-    fn honest(&mut self, tcode: i128, sh: &[i128]) -> (Vec<u8>, Vec<u8>) {
-        // (fresh dump F, a stream SX = F with every scalar field and every data byte replaced by valid random content)
-        let o = make(tcode, sh);
-        let (w, f) = dump(&*o);
-        assert_eq!(w, 0);
+    /// fresh dump F of a library-allocated object (None if the library panics or refuses: the CONSTRUCT record of the shape reports it)
+    fn fresh(tcode: i128, sh: &[i128], with_aux: bool) -> Option<Vec<u8>> {
+        catch_unwind(AssertUnwindSafe(|| {
+            let mut o = make(tcode, sh);
+            if with_aux { apply_aux(tcode, sh, &mut *o); }
+            let (w, f) = dump(&*o);
+            if w != 0 { return None; }
+            let _ = walk(tcode, &f);
+            Some(f)
+        })).ok().flatten()
+    }
+
+    /// (fresh dump F, an honest stream SX = F with every scalar field and every data byte replaced by valid random content).
+    /// SX is built by the harness itself (field table `walk`), not by reading anything back through the library.
+    fn honest(&mut self, tcode: i128, sh: &[i128]) -> Option<(Vec<u8>, Vec<u8>)> {
+        let f = Self::fresh(tcode, sh, false)?;
         let mut sx = f.clone();
-        let lk = leaf_kind(tcode);
         for s in walk(tcode, &f) {
             match s.kind {
                 1 => { let v = le(&f, s.off, 4); put(&mut sx, s.off, 4, if v == 0 { self.rng.below(5) } else { 1 + self.rng.below(40) }); }
-                2 => { put(&mut sx, s.off, 8, self.rng.next()); }
+                2 => { let g = GALOIS[self.gal % GALOIS.len()]; self.gal += 1; put(&mut sx, s.off, 8, g as u64); }
                 3 => { for i in 0..32 { sx[s.off + i] = self.rng.next() as u8; } }
                 5 => { let t = self.rng.pick(&[0u64, 1, 2, 3, 4, 5]);      // never NONE: the honest stream's dist differs from a fresh receiver's
                        let pay = match t { 0 | 2 | 4 => self.rng.below(1 << 20), 1 | 3 => (0.37f64 + self.rng.below(100) as f64).to_bits() >> 8, _ => 0 };
@@ -662,8 +695,13 @@ impl Gen {
                 _ => {}
             }
         }
-        let _ = lk;
-        (f, sx)
+        Some((f, sx))
+    }
+
+    fn construct_rec(&mut self, tcode: i128, sh: &[i128]) {
+        let mut ps = vec![self.dbg, tcode];
+        ps.extend_from_slice(sh);
+        self.out.push(Rec::new(18005, ps, vec![]));
     }
 
     fn read_rec(&mut self, tcode: i128, rk: i128, sh: &[i128], f: &[u8], pre: Option<&[u8]>, s: &[u8], minfo: [i128; 3]) {
@@ -797,28 +835,25 @@ impl Gen {
     }
 
     fn for_type(&mut self, tcode: i128, tier: &str) {
-        let nvar = match tcode { 1 => 3, 2 | 3 | 10 | 14..=20 | 24..=26 | 51 => 2, _ => 1 };
+        let nvar = nvariants(tcode);
         for variant in 0..nvar {
             let shx = base_shape(tcode, variant);
-            let (fx, sx) = self.honest(tcode, &shx);
+            // allocation + write_to of the shape itself is a record of its own (a base shape must always be constructible)
+            self.construct_rec(tcode, &shx);
+            let Some((fx, sx)) = self.honest(tcode, &shx) else { continue };
             let has_aux = (tcode == 1 || tcode == 10) && shx[8] > 0;
             let sxo: Option<&[u8]> = if has_aux { None } else { Some(&sx) };
-            // the honest stream of x (fields and data random)
-            let d = {
-                let mut x = make(tcode, &shx);
-                apply_aux(tcode, &shx, &mut *x);
-                if !has_aux { assert_eq!(rd(&mut *x, 0, &sx), Ok(0), "c18: honest stream rejected for type {tcode}"); }
-                dump(&*x).1
-            };
+            // the honest stream of x: SX itself (fields and data random), or the dump of the object with its active size reduced
+            let d: Vec<u8> = if has_aux { match Self::fresh(tcode, &shx, true) { Some(d) => d, None => continue } } else { sx.clone() };
             let composite = tcode >= 40;
             for how in [0, 1, -1, 2] {
                 if tcode == 13 && how == 2 { continue; }
                 let shr = resized(tcode, &shx, how);
                 if !valid_shape(tcode, &shr) { continue; }
-                let fr = dump(&*make(tcode, &shr)).1;
+                let Some(fr) = Self::fresh(tcode, &shr, false) else { continue };
                 // a smaller honest object first, so that the receiver's dimensions differ from its capacity
                 let small = resized(tcode, &shr, -1);
-                let s0: Option<Vec<u8>> = if valid_shape(tcode, &small) && !(composite && how != 0) { Some(self.honest(tcode, &small).1) } else { None };
+                let s0: Option<Vec<u8>> = if valid_shape(tcode, &small) && !(composite && how != 0) { self.honest(tcode, &small).map(|q| q.1) } else { None };
                 for rk in [0, 1] {
                     self.rt_rec(tcode, rk, &shx, &fx, sxo, &shr, &fr, None);
                 }
@@ -844,8 +879,8 @@ impl Gen {
         for tcode in [1i128, 10] {
             let shx = if tcode == 1 { vec![2, 0, 5, 2, 0, 0, 0, 0, 4, 1] } else { vec![2, 8, 40, 1, 0, 0, 0, 0, 4, 1] };
             let shr = if tcode == 1 { vec![2, 0, 3, 2, 0, 0, 0, 0, 0, 2] } else { vec![2, 8, 24, 1, 0, 0, 0, 0, 0, 2] };
-            let fx = dump(&*make(tcode, &shx)).1;
-            let fr = dump(&*make(tcode, &shr)).1;
+            self.construct_rec(tcode, &shx);
+            let (Some(fx), Some(fr)) = (Self::fresh(tcode, &shx, false), Self::fresh(tcode, &shr, false)) else { continue };
             for rk in [0, 1] { self.rt_rec(tcode, rk, &shx, &fx, None, &shr, &fr, None); }
             self.read_rec(tcode, 0, &shr, &fr, None, &fx, [6, 7, 0]);
         }
@@ -885,7 +920,7 @@ impl Gen {
 
 pub fn generate(tier: &str, seed: u64) -> Vec<Rec> {
     let model = match std::env::var("C18_MODEL").as_deref() { Ok("fixed") => 1, Ok("staged") => 2, _ => 0 };
-    let mut g = Gen { rng: Rng::new(seed), out: vec![], dbg: overflow_checks_on() as i128, model };
+    let mut g = Gen { rng: Rng::new(seed), out: vec![], dbg: overflow_checks_on() as i128, model, gal: 0 };
     for t in ALL_TYPES { g.for_type(*t, tier); }
     g.max_size_cases();
     g.write_cases();
@@ -971,28 +1006,60 @@ fn probe_zero() {
     }
 }
 
+/// CONSTRUCT records of every base shape of the grid: built from the shape table only, no library call
+fn fallback_list() -> Vec<Rec> {
+    let mut out = vec![];
+    for t in ALL_TYPES {
+        for v in 0..nvariants(*t) {
+            let mut ps = vec![0, *t];
+            ps.extend(base_shape(*t, v));
+            out.push(Rec::new(18005, ps, vec![]));
+        }
+    }
+    out
+}
+
+/// writes the input records (no outputs) to `out`; returns their number
+fn make_list(tier: &str, seed: &str, out: &str) -> usize {
+    let me = std::env::current_exe().unwrap();
+    let _ = std::fs::remove_file(out);
+    let st = std::process::Command::new(&me).args(["genlist", tier, seed, out]).stderr(std::process::Stdio::null()).status();
+    let ok = matches!(st, Ok(s) if s.success());
+    if !ok {
+        let mut f = std::io::BufWriter::new(std::fs::File::create(out).unwrap());
+        for r in fallback_list() { writeln!(f, "{}", r.line(&Ok(vec![]))).unwrap(); }
+    }
+    std::io::BufReader::new(std::fs::File::open(out).unwrap()).lines().count()
+}
+
 fn main() {
     if std::env::var("C18_TRACE").is_err() { std::panic::set_hook(Box::new(|_| {})); }
     let args: Vec<String> = std::env::args().collect();
     let mode = args.get(1).map(|s| s.as_str()).unwrap_or("");
     match mode {
-        "gen" => {
+        // the record list is produced by a child process: whatever the library does while objects are allocated and
+        // written for the inputs (panic, abort, signal), this process survives and falls back to the CONSTRUCT records
+        // of the grid, which then fail one by one inside the guarded workers
+        "genlist" => {
+            if std::env::var("C18_SELFTEST_GENFAIL").is_ok() { std::process::abort(); }     // self-test of the fallback below
             let recs = generate(&args[2], args[3].parse().unwrap());
+            let mut f = std::io::BufWriter::new(std::fs::File::create(&args[4]).unwrap());
+            for r in &recs { writeln!(f, "{}", r.line(&Ok(vec![]))).unwrap(); }
+        }
+        "list" => { make_list(&args[2], &args[3], &args[4]); }
+        "gen" => {
             let inp = format!("{}.in", args[4]);
-            {
-                let mut f = std::io::BufWriter::new(std::fs::File::create(&inp).unwrap());
-                for r in &recs { writeln!(f, "{}", r.line(&Ok(vec![]))).unwrap(); }
-            }
+            let n = make_list(&args[2], &args[3], &inp);
             supervise(&inp, &args[4]);
             let _ = std::fs::remove_file(&inp);
-            eprintln!("harness: {} records", recs.len());
+            eprintln!("harness: {} records", n);
         }
         "exec" => supervise(&args[2], &args[3]),
         "worker" => worker(&args[2], &args[3], args[4].parse().unwrap()),
         "probe" => probe(&args),
         "zero" => probe_zero(),
         _ => {
-            eprintln!("usage: c18 gen <tier> <seed> <out> | exec <in> <out> | probe <tcode> <seed_len>");
+            eprintln!("usage: c18 gen <tier> <seed> <out> | list <tier> <seed> <out> | exec <in> <out> | probe <tcode> <seed_len>");
             std::process::exit(2);
         }
     }
